@@ -47,7 +47,7 @@ ASSUMPTIONS = [
     "later config sources override earlier ones for the same section name (statement)",
     "a self-inherit refers to the same name in the next earlier source that defines it",
 ]
-BUDGET = {"quick": 50, "thorough": 900}
+BUDGET = {"quick": 50, "thorough": 800}
 
 KEYS = ["k0", "k1", "k2", "k3"]
 
@@ -374,14 +374,20 @@ def _explain(sources, root, ref, gotc, bad):
 def plan(tier, seed):
     if tier == "quick":
         return [{"task": "gen", "examples": 500} for _ in range(16)]
-    return [{"task": "gen", "examples": 30000} for _ in range(16)]
+    return [{"task": "gen", "examples": 15000} for _ in range(16)]
 
 
 def run_task(ctx, task, **kw):
     if task != "gen":
         raise core.HarnessError(f"unknown task {task}")
     env = Env()
-    core.hyp_run(ctx, case_strategy(), lambda c: check(ctx, env, c), kw["examples"], chunk=250)
+    chunk = 100 if ctx.tier == "quick" else 1000
+    # the first chunk always runs (a slow start on a loaded machine must not make the run vacuous);
+    # the wall-clock guard applies to everything after it
+    deadline, ctx.deadline = ctx.deadline, None
+    done = core.hyp_run(ctx, case_strategy(), lambda c: check(ctx, env, c), min(chunk, kw["examples"]), chunk=chunk, seed_salt=7)
+    ctx.deadline = deadline
+    core.hyp_run(ctx, case_strategy(), lambda c: check(ctx, env, c), kw["examples"] - done, chunk=chunk)
 
 
 def replay(ctx, case):
